@@ -170,6 +170,7 @@ pub fn run_pty(scratch: &Scratch, asm: &Path, minimal: bool, cols: u16, history_
     unsafe {
         cmd.pre_exec(|| {
             // Own session with the pty as controlling terminal, like a shell would set it up
+            libc::prctl(libc::PR_SET_PDEATHSIG, libc::SIGKILL);
             libc::setsid();
             libc::ioctl(0, libc::TIOCSCTTY, 0);
             Ok(())
